@@ -772,6 +772,7 @@ rfbPeekExactTimeout(rfbClientPtr cl, char* buf, int len, int timeout)
 #endif
     rfbSocket sock = cl->sock;
     int n;
+    int waited = 0;
     fd_set fds;
     struct timeval tv;
 
@@ -794,6 +795,21 @@ rfbPeekExactTimeout(rfbClientPtr cl, char* buf, int len, int timeout)
         } else if (n == 0) {
 
             return 0;
+
+        } else if (n > 0) {
+
+            /* Some, but not all, of the bytes are there.  select() would report
+               the socket readable at once, so waiting on it would spin (forever
+               if the peer sends nothing more).  Nap instead and give up at the
+               usual deadline. */
+            if (waited >= timeout) {
+                errno = ETIMEDOUT;
+                return -1;
+            }
+            tv.tv_sec = 0;
+            tv.tv_usec = 1000;
+            select(0, NULL, NULL, NULL, &tv);
+            waited++;
 
         } else {
 #ifdef WIN32
